@@ -218,6 +218,7 @@ type SMOptions struct {
 	SlowUpdate  time.Duration
 	SlowPrepare time.Duration // PrepareSnapshot dwells after fixing its view
 	SlowSync    time.Duration
+	SlowRecover time.Duration // RecoverFromSnapshot dwells (a large image)
 	// OnApply is called for every user entry inside Update, before the result is returned
 	OnApply      func(host int, id uint64)
 	RaceCanary   bool // keep the deliberately unsynchronised field (race detector oracle)
@@ -613,6 +614,9 @@ func (s *SMInst) recoverFrom(r io.Reader) error {
 	d, err := readKVData(r)
 	if err != nil {
 		return err
+	}
+	if s.opt.SlowRecover > 0 {
+		time.Sleep(s.opt.SlowRecover)
 	}
 	s.dmu.Lock()
 	s.data = d
